@@ -218,6 +218,21 @@ func (c *FnCtx) uninterp(st *State, fname string, args []Val, resT *types.Tuple)
 	for k := 0; k < resT.Len(); k++ {
 		rt := resT.At(k).Type()
 		f := q(fmt.Sprintf("%s$%d", fname, k))
+		if !c.sc.HasDecl("uf:"+f) && len(sorts) > 0 {
+			// the result's type invariant (a string is a non-negative id, a slice is well formed, ...) holds for every
+			// application, also for those that only occur in specifications
+			var vs, ds []string
+			for i, srt := range sorts {
+				v := fmt.Sprintf("a%d", i)
+				vs = append(vs, v)
+				ds = append(ds, "("+v+" "+srt+")")
+			}
+			app := App(f, vs...)
+			if inv := c.ty.Inv(rt, app); inv != "true" {
+				c.sc.Decl("uf:"+f, fmt.Sprintf("(declare-fun %s (%s) %s)", f, strings.Join(sorts, " "), c.ty.SortOf(rt)))
+				c.sc.Decl("ufinv:"+f, fmt.Sprintf("(assert (forall (%s) (! %s :pattern (%s))))", strings.Join(ds, " "), inv, app))
+			}
+		}
 		c.sc.Decl("uf:"+f, fmt.Sprintf("(declare-fun %s (%s) %s)", f, strings.Join(sorts, " "), c.ty.SortOf(rt)))
 		e := App(f, as...)
 		if st != nil {
